@@ -187,7 +187,7 @@ def stmt_seeds(dialect):
              .having(FN.Count(u.x) > 0).orderby(t.a, order=Order.desc).limit(10).offset(5)
              .force_index("i1").use_index("i2").distinct())
         if dialect in ("generic", "mysql", "postgresql"):
-            q = q.for_update(of=("t",))
+            q = q.for_update(of=("t", "u", "cte", "another"))
         return q
 
     def sel_rollup():
